@@ -941,10 +941,20 @@ def unknownFloat : String := "<float?>"
 
 /-! ### emit: format.go as a token list (whitespace is not a token; the harness joins with the emitter's spacing rules) -/
 
+/-- a property key / name that is written bare (cypher.CanEmitBarePropertyKeyName, ASCII part) -/
+def simpleKey (k : String) : Bool :=
+  match k.toList with
+  | c :: cs => (c.isAlpha || c == '_') && cs.all (fun x => x.isAlphanum || x == '_')
+  | [] => false
+
 def escapeKeyTok (k : String) : String :=
   -- cypher.EscapePropertyKeyName: bare when the key is a plain symbolic name (ASCII approximation), else back-ticked
-  let ok := !k.isEmpty && (k.front.isAlpha || k.front == '_') && k.toList.all (fun c => c.isAlphanum || c == '_')
-  if ok then k else "`" ++ String.ofList (doubleTicks k.toList) ++ "`"
+  if simpleKey k then k else "`" ++ String.ofList (doubleTicks k.toList) ++ "`"
+
+/-- the words of an operator as the emitter's text lexes (`starts with` is two tokens) -/
+def opWords (op : String) : List String :=
+  if op == "starts with" then ["starts", "with"] else if op == "ends with" then ["ends", "with"]
+  else if op == "is not" then ["is", "not"] else [op]
 
 def commaSep (xss : List (List String)) : List String :=
   match xss with
@@ -979,7 +989,7 @@ def eExpr : Nat → Expr → List String
     | .conj es => sepBy "and" (es.map (fun x => eOperand f x 2))
     | .disj es => sepBy "or" (es.map (eExpr f))
     | .xdisj es => sepBy "xor" (es.map (fun x => eOperand f x 1))
-    | .cmp l ps => eExpr f l ++ (ps.map (fun p => p.1 :: eExpr f p.2)).flatten
+    | .cmp l ps => eExpr f l ++ (ps.map (fun p => opWords p.1 ++ eExpr f p.2)).flatten
     | .arith l ps => eExpr f l ++ (ps.map (fun p => p.1 :: eExpr f p.2)).flatten
     | .unary op r => op :: eExpr f r
     | .list es => ["["] ++ commaSep (es.map (eExpr f)) ++ ["]"]
